@@ -346,11 +346,22 @@ func run(c *Case) {
 }
 
 func main() {
-	mode := flag.String("mode", "log", "log: log queries (C07/C13/C14); metric: metric queries (C08); metricdb: metric queries with databases (C08)")
+	mode := flag.String("mode", "log", "log: log queries (C07/C13/C14); metric: metric queries (C08); metricdb: metric queries with databases (C08); tpl: line_format templates alone")
 	ndbs := flag.Int("dbs", 3, "databases per case (metricdb)")
 	f := hx.ParseFlags()
 	out := hx.OpenOut(f.Out)
 	defer out.Close()
+	if f.Cases != "" && *mode == "tpl" {
+		hx.ReadLines(f.Cases, func(b []byte) {
+			var c TplCase
+			if err := json.Unmarshal(b, &c); err != nil {
+				panic(err)
+			}
+			runTpl(&c)
+			out.Put(c)
+		})
+		return
+	}
 	if f.Cases != "" {
 		hx.ReadLines(f.Cases, func(b []byte) {
 			var c Case
@@ -366,6 +377,14 @@ func main() {
 		return
 	}
 	r := hx.Rand(f.Seed)
+	if *mode == "tpl" { // line_format templates alone (model/LogqlTemplate.v)
+		for i := 0; i < f.N; i++ {
+			c := genTplCase(r, i)
+			runTpl(&c)
+			out.Put(c)
+		}
+		return
+	}
 	if *mode == "metricdb" {
 		for i := 0; i < f.N; i++ {
 			c := genMetricDB(r, i, *ndbs)
